@@ -6,7 +6,7 @@ From IronCalc Require Import Base.Prelude Base.Dec Codec.Column Codec.ColumnProo
   Codec.RefA1 Codec.RefA1Proofs Syntax.Displace Syntax.DisplaceProofs Syntax.Metadata.
 
 Ltac zc := repeat (zb1; cbn [andb orb negb fst snd]); try reflexivity; try lia;
-           try (repeat f_equal; lia).
+           try (f_equal; f_equal; lia).
 
 (* ===================================================================================== *)
 (** * Links: every key map is [cell_map]                                                   *)
@@ -39,7 +39,7 @@ Lemma link_move_row_single row delta r c :
   link_move_row row delta (r, c) = Some (single_move row delta r, c).
 Proof.
   unfold link_move_row, link_move_row_closure, single_move. cbn [fst snd].
-  destruct (Z.eqb_spec r row) as [E|E]; [reflexivity|].
+  destruct (Z.eqb_spec r row) as [E|E]; [subst; reflexivity|].
   zc.
 Qed.
 
@@ -47,7 +47,7 @@ Lemma link_move_column_single col delta r c :
   link_move_column col delta (r, c) = Some (r, single_move col delta c).
 Proof.
   unfold link_move_column, link_move_column_closure, single_move. cbn [fst snd].
-  destruct (Z.eqb_spec c col) as [E|E]; [reflexivity|].
+  destruct (Z.eqb_spec c col) as [E|E]; [subst; reflexivity|].
   zc.
 Qed.
 
@@ -103,7 +103,7 @@ Lemma line_map_injective x y at_ delta z :
   line_map x at_ delta = Some z -> line_map y at_ delta = Some z -> x = y.
 Proof.
   unfold line_map.
-  repeat (zb1; cbn [andb]); intros H1 H2; try discriminate; inversion H1; inversion H2; lia.
+  repeat (zb1; cbn [andb]); intros Hx Hy; try discriminate; inversion Hx; inversion Hy; lia.
 Qed.
 
 Theorem link_map_injective d p1 p2 q :
@@ -119,10 +119,10 @@ Proof.
     destruct (line_map c2 col delta) eqn:E2; [|discriminate].
     intros H1 H2. inversion H1; inversion H2; subst.
     f_equal. eapply line_map_injective; eassumption.
-  - intros H1 H2. inversion H1; inversion H2; subst. f_equal.
-    eapply single_move_injective. congruence.
-  - intros H1 H2. inversion H1; inversion H2; subst. f_equal.
-    eapply single_move_injective. congruence.
+  - intros H1 H2. rewrite <- H2 in H1. inversion H1 as [[Hr Hc]].
+    first [apply single_move_injective in Hr | apply single_move_injective in Hc]; congruence.
+  - intros H1 H2. rewrite <- H2 in H1. inversion H1 as [[Hr Hc]].
+    first [apply single_move_injective in Hr | apply single_move_injective in Hc]; congruence.
   - intros H1 H2. congruence.
 Qed.
 
@@ -247,10 +247,10 @@ Proof.
   destruct p as [row col]. cbn [fst snd]. intros Hv Hr Hc.
   destruct d as [s' dr delta|s' dc delta|s' mr delta|s' mc delta|]; unfold cf_corner;
     cbn [cf_row cf_col fst snd disp_valid] in *.
-  - repeat (zb1; cbn [andb]); intro H; try discriminate; inversion H; subst; lia.
-  - repeat (zb1; cbn [andb]); intro H; try discriminate; inversion H; subst; lia.
-  - repeat (zb1; cbn [andb]); intro H; try discriminate; inversion H; subst; lia.
-  - repeat (zb1; cbn [andb]); intro H; try discriminate; inversion H; subst; lia.
+  - repeat (zb1; cbn [andb]); intro Hx; try discriminate; inversion Hx; subst; lia.
+  - repeat (zb1; cbn [andb]); intro Hx; try discriminate; inversion Hx; subst; lia.
+  - repeat (zb1; cbn [andb]); intro Hx; try discriminate; inversion Hx; subst; lia.
+  - repeat (zb1; cbn [andb]); intro Hx; try discriminate; inversion Hx; subst; lia.
   - intro H; inversion H; subst; lia.
 Qed.
 
@@ -298,8 +298,8 @@ Theorem cf_range_is_formula_range d s q orig p1 p2 :
 Proof.
   intros Hd Hdef. unfold displace_range_text.
   destruct (rel_range_not_full s q p1 p2) as [F1 F2]. rewrite F1, F2.
-  rewrite (corner_text d s q _ p1 Hd eq_refl (resolve_rel_corner1 s q p1 p2) eq_refl eq_refl).
-  rewrite (corner_text d s q _ p2 Hd eq_refl (resolve_rel_corner2 s q p1 p2) eq_refl eq_refl).
+  rewrite (corner_text d s q (corner1 (rel_range s q p1 p2)) p1 Hd eq_refl (resolve_rel_corner1 s q p1 p2) eq_refl eq_refl).
+  rewrite (corner_text d s q (corner2 (rel_range s q p1 p2)) p2 Hd eq_refl (resolve_rel_corner2 s q p1 p2) eq_refl eq_refl).
   unfold cf_defect, cf_corner_deleted, cf_corner_off_grid in Hdef. unfold cf_pair.
   destruct (cf_corner d s p1) as [[r1 c1]|]; [|discriminate Hdef].
   destruct (cf_corner d s p2) as [[r2 c2]|]; [|cbn in Hdef; rewrite ?orb_true_r in Hdef; discriminate Hdef].
@@ -319,7 +319,7 @@ Theorem cf_cell_is_formula_ref d s q orig p :
     {| a_sheet := s; a_row := fst p - fst q; a_col := snd p - snd q; a_abs_row := false; a_abs_col := false |}.
 Proof.
   intros Hd H1 H2.
-  rewrite (corner_text d s q _ p Hd eq_refl).
+  rewrite (corner_text d s q {| a_sheet := s; a_row := fst p - fst q; a_col := snd p - snd q; a_abs_row := false; a_abs_col := false |} p Hd eq_refl).
   - unfold cf_corner_deleted, cf_corner_off_grid in *. unfold cf_cell.
     destruct (cf_corner d s p) as [[r c]|]; [|discriminate H1].
     apply orb_false_iff in H2 as [Hv Hr]. rewrite Hr.
